@@ -222,6 +222,12 @@ func cmdCheck(args []string) int {
 				if cfg.Solver == "z3" {
 					cfg2.Solver, cfg2.Fallback = "cvc5", "z3"
 				}
+				// the second back end is several times slower on these queries: it gets twice the wall time of
+				// the first run (at least two minutes); what it did not reach is reported as such, not as a failure
+				cfg2.Deadline = 2 * hr.Wall
+				if cfg2.Deadline < 2*time.Minute {
+					cfg2.Deadline = 2 * time.Minute
+				}
 				x2 := symgo.NewExplorer(ld.Prog, entry, cfg2)
 				x2.NoPanic, x2.Thorough, x2.Expect = x.NoPanic, x.Thorough, x.Expect
 				for _, other := range hfs {
@@ -245,6 +251,15 @@ func cmdCheck(args []string) int {
 					hr.CrossCheck = fmt.Sprintf("%s vs %s: completed %d/%d vcs %d/%d discharged %d/%d", cfg.Solver, cfg2.Solver, a.Completed, b.Completed, a.VCs, b.VCs, a.VCUnsat+a.VCConst, b.VCUnsat+b.VCConst)
 					if !same && len(x2.Inconcl) == 0 && len(x.Inconcl) == 0 {
 						hr.Err = "solvers disagree: " + hr.CrossCheck
+					}
+					if len(x2.Inconcl) > 0 {
+						// partial second run: every violation label it met must be one the first run reported too
+						hr.CrossCheck += fmt.Sprintf(" (second run incomplete within %s: no disagreement on the part explored)", cfg2.Deadline.Round(time.Second))
+						for k := range x2.ViolationCounts() {
+							if x.ViolationCounts()[k] == 0 && len(x.Inconcl) == 0 {
+								hr.Err = "solvers disagree: " + cfg2.Solver + " reports a violation of " + k + " that " + cfg.Solver + " does not"
+							}
+						}
 					}
 				}
 			}
